@@ -41,11 +41,50 @@ RES = {
  "C19-B": ("C19", "caught by quick C19 (scan:mismatch after Recover + reopen)", ""),
  "C20-A": ("C20", "caught by quick C20 (scan:mismatch, iter:mismatch; control run without scribbling passes); it reverts fix c2308d5", ""),
  "C20-B": ("C20", "caught by quick C20 (iter:mismatch, txget:mismatch)", ""),
+ # ---- round 2 (variants C, D; sub-agents were also told which mechanisms round 1 had used) ----
+ "C01-C": ("C01", "caught by quick C01 (get:has-mismatch)", ""),
+ "C01-D": ("C01", "caught by quick C01 (get:mismatch, scan:mismatch)", ""),
+ "C02-C": ("C02", "caught by quick C02 (iter:mismatch, snapiter:mismatch)", ""),
+ "C02-D": ("C02", "caught by quick C02 (txiter:mismatch, txiter:error)", ""),
+ "C03-C": ("C03", "caught by quick C03 (iter:mismatch, snapget:mismatch)", ""),
+ "C03-D": ("C03", "caught by quick C03 (iter:mismatch, snapiter:mismatch)", ""),
+ "C04-C": ("C04", "caught by quick C04 (scan:sync-write-lost) and quick C10 (wgroup:sync-ack-not-durable)", "missed at first: needs a Sync write merged into a non-sync leader's group, i.e. concurrent writers, then a crash; added the 'conccrash' scenario (concurrent writers on disjoint keys, crash, reopen: every Sync-acknowledged write must survive) and the C10 oracle 'at a Sync acknowledgement the journal bytes of the write are synced'"),
+ "C04-D": ("C04", "caught by quick C04 (open-failed)", ""),
+ "C05-C": ("C05", "caught by quick C05 (lin:not-linearizable)", ""),
+ "C05-D": ("C05", "caught by quick C05 (lin:invented-value)", ""),
+ "C06-D": ("C06", "caught by quick C06 (lsm:overlap)", ""),
+ "C07-C": ("C07", "caught by quick C07 (read-removed, iter:mismatch)", "missed at first: needs an iterator of a transaction that outlives Discard while the next table reuses the file number; transaction iterators may now outlive Commit/Discard and are stepped and released later like DB iterators"),
+ "C07-D": ("C07", "caught by quick C07 (files-residue:extra:table)", ""),
+ "C08-C": ("C08", "caught by quick C08 (open-failed)", "missed at first (also in a 200 s run): needs Close racing a transaction commit that is being retried after a manifest fault; added that race to the concurrent fault scenario"),
+ "C08-D": ("C08", "caught by quick C08 (scan:acked-write-lost)", "missed at first: needs concurrent writers under journal faults; added the 'concfault' scenario (concurrent writers on disjoint keys, error faults, reopen: acknowledged writes survive, failed ones are all-or-nothing)"),
+ "C09-C": ("C09", "caught by quick C09 (hang:db_write.go:DB.putRec, hang:DB.OpenTransaction)", ""),
+ "C09-D": ("C09", "caught by quick C09 and quick C18 (hang:db_write.go:DB.putRec)", "missed at first: needs Put/Delete with NoWriteMerge on a DB in the read-only (persistent error) state; added the 'setro' operation (SetReadOnly in the middle of a history, then every write entry point with every combination of Sync/NoWriteMerge must answer ErrReadOnly) to all DB-level programs and to the C18 scenarios"),
+ "C10-C": ("C10", "caught by quick C10 (wgroup:unattributable, wgroup:duplicated)", ""),
+ "C10-D": ("C10", "caught by quick C10 (wgroup:sync-ack-not-durable)", "missed at first: see C04-C (sync-ack oracle)"),
+ "C11-C": ("C11", "caught by quick C11 and quick C08 (open-failed)", "missed at first by C11 (C08 caught it): C11 programs were single-client; 15% of C11 cases now run the Close-versus-retried-commit race under manifest faults"),
+ "C11-D": ("C11", "caught by quick C11 (scan:mismatch, get:mismatch); it partially reverts fix 9e57e47", ""),
+ "C14-C": ("C14", "caught by quick C14 (memdb:contains-mismatch, memdb:get-mismatch)", ""),
+ "C14-D": ("C14", "caught by quick C14 (memdb:value-unstable)", "missed at first: in-place overwrite of equal-length values is only visible to a reader that still holds an earlier slice; the memdb scenario now keeps the slices handed out by Get/Find/iterators and requires their bytes to stay unchanged until Reset"),
+ "C17-C": ("C17", "caught by quick C17 (cache:not-finalized)", "missed at first: needs Close/EvictAll while the hash table is being resized (>= 512 nodes); added a 'fill' operation that grows the table right before Close/EvictAll/SetCapacity(0), and the end-of-run requirement that after Close every value is finalised exactly once"),
+ "C17-D": ("C17", "caught by quick C17 (panic:cache.(*lruNode).remove)", ""),
+ "C18-C": ("C18", "caught by quick C18 and quick C09 (hang:db_write.go:DB.putRec)", "missed at first by C18 (C09 caught it once 'setro' existed): needs SetReadOnly while a failed flush is being retried; the C18 SetReadOnly scenario now runs 40% of its cases under table-file faults"),
+ "C18-D": ("C18", "caught by quick C18 (readonly:empty-open-succeeded)", "missed at first: added the open guards to the read-only scenario (read-only / ErrorIfMissing Open of an empty storage must fail and create nothing; ErrorIfExist on an existing DB must fail and change nothing)"),
+ "C19-C": ("C19", "caught by quick C19 (scan:mismatch, recover:lost-undamaged)", ""),
+ "C19-D": ("C19", "caught by quick C19 (recover:lost-undamaged)", "missed at first: needs Options.Strict set explicitly without StrictReader; C19 cases now use explicit strictness levels (block checksums on, StrictRecovery off) 40% of the time"),
+ "C20-C": ("C20", "caught by quick C20 (get:mismatch, iter:mismatch)", ""),
+ "C20-D": ("C20", "caught by quick C20 and quick C10 (arg-modified:batch)", "missed at first: needs a Write that leads a merge group, i.e. concurrent writers; concurrent clients now compare the batch before and after Write, and 15% of C20 cases are concurrent"),
+
 }
 os.makedirs("/verif/seeded", exist_ok=True)
 rows = []
 for name, (prop, caught, note) in sorted(RES.items()):
     src = "/tmp/mut/out/" + name
+    if not os.path.exists(src + "/patch.diff"):
+        src = "/tmp/mut/out2/" + name
+    if os.path.exists("/verif/seeded/" + name + "/patch.diff") and not os.path.exists(src + "/patch.diff"):
+        rows_keep = json.load(open("/verif/seeded/" + name + "/meta.json"))
+        rows.append((name, prop, rows_keep.get("result", caught), rows_keep.get("strengthening", note)))
+        continue
     if not os.path.exists(src + "/patch.diff"):
         print("missing", name); continue
     conf = {}
@@ -72,7 +111,7 @@ for name, (prop, caught, note) in sorted(RES.items()):
             "demo_file": conf.get("demo"), "demo_test": conf.get("test"),
             "demo_passes_without_patch": True, "demo_fails_with_patch": True, "suite_passes_with_patch": True,
         },
-        "checks_run": "git -C /repo apply patch.diff; bin/check %s quick; git -C /repo checkout -- . (tools/try_seed.sh)" % prop,
+        "checks_run": "tools/try_seed.sh patch.diff %s: the patch applied to a tree, bin/check <id> quick against it, tree restored" % prop,
         "result": caught,
     }
     if note:
